@@ -674,14 +674,14 @@ CHECKS["C02"].update({
              "(`<text>LF scalar A`, flags with allow_type_system): parse accepts the wrapped text under the same flags and returns the document that "
              "contains exactly the node, moved by the offset of the context; closed forms without side hypothesis for executable documents: "
              "span_reparse_selection_all / _selection_set_all / _directive_all / _argument_all over Definition.sels / ssets / dirs / args (every such "
-             "node at any depth). CORRESPONDENCE: decoded values and every node's loc (through the C01 driver), parse_block_string directly; DIRECT "
+             "node at any depth), and for type-system definitions and extensions span_reparse_directive_ts / span_reparse_argument_ts / "
+             "span_reparse_description_all over Definition.tdirs / descs (directives and descriptions of the definition and of its field definitions, "
+             "argument definitions, enum values, input fields). CORRESPONDENCE: decoded values and every node's loc (through the C01 driver), parse_block_string directly; DIRECT "
              "ORACLES: source[loc] re-parses to an equal node with the Parser method that produced it (incl. trailing children) AND, for these node "
              "kinds, through the public parse() inside the same minimal context; block / quoted lexemes decode to the spec value, numbers and names "
              "verbatim, node.source slices."),
     "note": ("Trusted: Lean kernel; generators; the lexer positions feeding the spans are covered by lex_sound (C01). Only exercised: Parser.parse_* "
-             "methods called directly on a slice (the first oracle), the `source` attribute; directives / arguments / descriptions of TYPE-SYSTEM "
-             "definitions are covered by the hypothesis forms (span_reparse_directive / _argument / _description with the sub-node premise) and the "
-             "oracle, not by a closed enumeration. Residual: P5 (the Document span runs from <SOF> to <EOF>, i.e. includes surrounding ignored text; "
+             "methods called directly on a slice (the first oracle), the `source` attribute. Residual: P5 (the Document span runs from <SOF> to <EOF>, i.e. includes surrounding ignored text; "
              "pinned by 15 tests; modelled as is). Repaired earlier: B1, B2, L4, P4, U1."),
     "technique": "Lean 4 proof (block strings, escapes, spans for all documents, no_location erasure, character-level re-parse of every node, re-parse through parse() in minimal context) + decode/span correspondence + re-parse oracles",
 })
